@@ -558,11 +558,12 @@ func (c *CharSet) addSet(set CharSet) {
 	if c.anything {
 		return
 	}
+	// back to the positive form first: "everything" is a positive class too
+	c.unflip()
 	if set.anything {
 		c.makeAnything()
 		return
 	}
-	c.unflip()
 	// just append here to prevent double-canon
 	c.ranges = append(c.ranges, set.ranges...)
 	c.addCategories(set.categories...)
